@@ -102,6 +102,10 @@ def generate(tier, rng):
         if i % 4 == 0:
             c["oldtimes"] = True
         yield c
+    for seq in itertools.product([["init", 0], ["remove", 0], ["ucache"], ["session"], ["staletmp"]], repeat=4):
+        ops_ = [list(o) for o in seq]
+        if ["ucache"] in ops_ and ["staletmp"] in ops_:
+            yield {"ops": ops_}
     for seq in itertools.product([["init", 0], ["init", 1], ["remove", 0], ["ucache"], ["session"]], repeat=4):
         if ["ucache"] in [list(o) for o in seq]:
             yield {"ops": [list(o) for o in seq], "oldtimes": True}
@@ -306,6 +310,11 @@ def run_case(case, ctx):
                 elif k == "rmcache":
                     if os.path.exists(cache_fn):
                         os.remove(cache_fn)
+                elif k == "staletmp":
+                    # what a process killed inside update_cache() leaves: the temp file next to the cache
+                    os.makedirs(os.path.dirname(cache_fn), exist_ok=True)
+                    with open(cache_fn + "~", "wb") as f:
+                        f.write(b"\x1f\x8b leftover of an interrupted update_cache")
             except Exception as e:  # noqa: BLE001
                 res = exc_name(e)
             if case.get("oldtimes"):
@@ -372,7 +381,9 @@ def run_case(case, ctx):
                     os.rename(cache_fn + ".away", cache_fn)
             # correspondence token: result, ids in cache file, ids on disk
             cache, _ = read_cache_file(path)
-            if k == "reassign":
+            if k == "staletmp":
+                itoks.append("obs")   # no counterpart in the model: a file the cache logic must not care about
+            elif k == "reassign":
                 itoks.append("obs")   # its model counterpart is the `observe` pseudo-op
                 if res not in ("ok", "KeyError"):
                     oracle.append("%s: assigning a job the state point it already has raised %s" % (where, res))
@@ -382,7 +393,7 @@ def run_case(case, ctx):
                 mops.append("%s %s" % (k, enc_val(sp_of(op[1]))))
             elif k == "rekey":
                 mops.append("rekey %s %s %s" % (enc_val(sp_of(op[1])), "S" + hx("n"), enc_val(KS[op[2]])))
-            elif k == "reassign":
+            elif k in ("reassign", "staletmp"):
                 mops.append("observe")   # for the model: the session has (at most) learnt the job's state point
             else:
                 mops.append(k)
